@@ -98,7 +98,7 @@ func TestCheck(t *testing.T) {
 	var bases []*base
 	rng := r.Rand("bases", 0)
 	// (a) generated offers
-	nGen := r.N(6, 24)
+	nGen := r.N(6, 60)
 	for i := 0; i < nGen; i++ {
 		k := echgen.NewKey(uint8(rng.IntN(256)), "public.example")
 		o := echgen.DefaultOpts()
@@ -113,7 +113,7 @@ func TestCheck(t *testing.T) {
 		bases = append(bases, &base{name: fmt.Sprintf("gen%d-aead%d", i, aeads[i%3]), record: of.Record(), keys: []ech.Key{k.TLSKey()}, key: k, offer: of})
 	}
 	// (b) crypto/tls captures
-	nCap := r.N(2, 8)
+	nCap := r.N(2, 20)
 	for i := 0; i < nCap; i++ {
 		k := echgen.NewKey(uint8(rng.IntN(256)), "public.example", aeads[i%3])
 		cfg := &tls.Config{ServerName: "inner.example", RootCAs: ca.Pool, MinVersion: tls.VersionTLS13,
@@ -165,7 +165,7 @@ func TestCheck(t *testing.T) {
 	r.SetExhaustive(true)
 
 	// -- substitutions --
-	nSub := r.N(40, 2000)
+	nSub := r.N(40, 8000)
 	r.Parallel("subst", nSub, func(i int, rng *mrand.Rand) {
 		b := bases[i%len(bases)]
 		h, err := tlswire.ParseClientHelloMessage(b.record[5:])
@@ -330,7 +330,7 @@ func TestCheck(t *testing.T) {
 	})
 
 	// -- honestly sealed under a suite the held key's config does not list --
-	nu := r.N(60, 3000)
+	nu := r.N(60, 12000)
 	r.Parallel("unlisted-suite", nu, func(i int, rng *mrand.Rand) {
 		listed := aeads[i%3]
 		var lists [][]uint16
